@@ -52,13 +52,37 @@ Proof.
   - exfalso. apply Hn. reflexivity.
 Qed.
 
+Definition rejected_phase (st : state) : phase :=
+  {| p_res := Some RSemaphore; p_db := obs_of st; p_evs := [] |}.
+
+(* while the guard is taken every call is rejected and nothing changes *)
+Lemma run_calls_busy : forall cs st, busy st = true ->
+  run_calls st cs = (st, map (fun _ => rejected_phase st) cs).
+Proof.
+  induction cs as [|c cs IH]; intros st Hb; [reflexivity|].
+  cbn [run_calls map]. rewrite (busy_rejects_all st c Hb), (IH st Hb). reflexivity.
+Qed.
+
+Lemma rejected_okb_model : forall cp st cs,
+  rejected_okb cp (obs_of st) cs (map (fun _ => rejected_phase st) cs) = true.
+Proof.
+  induction cs as [|c cs IH]; [reflexivity|]. cbn [map rejected_okb]. rewrite IH.
+  unfold phase_okb, rejected_phase. cbn [p_res p_db p_evs is_nil]. rewrite dbobs_eqb_refl. reflexivity.
+Qed.
+
+Lemma split_last_app : forall {A} (xs : list A) x, split_last (xs ++ [x]) = Some (xs, x).
+Proof.
+  induction xs as [|y xs IH]; intro x; [reflexivity|]. cbn [app split_last].
+  rewrite IH. destruct (xs ++ [x]) eqn:E; [destruct xs; discriminate | reflexivity].
+Qed.
+
 Lemma model_passes_from : forall ops st,
   Forall wf_op ops -> busy st = false ->
   trace_okb (cap st) (obs_of st) ops (run st ops) = true.
 Proof.
   induction ops as [|o ops IH]; intros st Hwf Hb; [reflexivity|].
   inversion Hwf as [|? ? Hwo Hwr]; subst. cbn [run].
-  destruct o as [c | a b | ]; cbn [step wf_op] in *.
+  destruct o as [c | a b | | a bs]; cbn [step wf_op] in *.
   - pose proof (run_call_spec st c Hwo Hb) as Hs.
     pose proof (run_call_keeps st c Hwo Hb) as [Hb' Hc'].
     unfold call_spec in Hs. destruct (run_call st c) as [[st' r] ev]. cbn [fst] in *.
@@ -97,6 +121,44 @@ Proof.
     rewrite dbobs_eqb_refl. cbn [andb].
     change (with_held (obs_of st) 0) with (obs_of (set_held st 0)).
     change (cap st) with (cap (set_held st 0)). apply IH; assumption.
+  - (* a call parked on back-pressure *)
+    destruct Hwo as [Hwa Hwbs]. rewrite Hb. cbn [negb andb].
+    rewrite (parks_spec st a Hwa).
+    destruct (parksb (cap st) (obs_of st) a) eqn:Ep.
+    + rewrite (run_calls_busy bs (set_busy st true) eq_refl).
+      pose proof (body_spec (set_held (set_busy st true) 0) a Hwa) as Hs. unfold call_spec in Hs.
+      destruct (body (set_held (set_busy st true) 0) a) as [[st4 ra] eva].
+      change (obs_of (set_held (set_busy st true) 0)) with (with_held (obs_of st) 0) in *.
+      change (cap (set_held (set_busy st true) 0)) with (cap st) in *.
+      cbn [trace_okb]. rewrite split_last_app, Ep.
+      change (rejected_phase (set_busy st true)) with (rejected_phase st).
+      rewrite rejected_okb_model. cbn [andb p_db].
+      change (obs_of (set_busy st4 false)) with (obs_of st4).
+      destruct Hs as [H1 [H2 H3]].
+      rewrite phase_okb_of_spec.
+      * cbn [andb].
+        assert (Hk : busy (set_busy st4 false) = false /\ cap (set_busy st4 false) = cap st
+                     /\ obs_of (set_busy st4 false) = obs_of st4).
+        { repeat split. cbn [cap set_busy].
+          destruct ra; try (destruct (H3 ltac:(discriminate)) as [_ [-> _]]; reflexivity).
+          destruct (H2 eq_refl) as [_ [_ [_ [_ Hc]]]]. exact Hc. }
+        destruct Hk as [Hk1 [Hk2 Hk3]]. rewrite <- Hk2, <- Hk3. apply IH; assumption.
+      * exact H1.
+      * intro Hr. destruct (H2 Hr) as [? [? [? _]]]. auto.
+      * intro Hr. destruct (H3 Hr) as [? [-> ?]]. auto.
+    + pose proof (run_call_spec st a Hwa Hb) as Hs.
+      pose proof (run_call_keeps st a Hwa Hb) as [Hb' Hc'].
+      unfold call_spec in Hs. destruct (run_call st a) as [[st1 ra] eva]. cbn [fst] in *.
+      cbn [trace_okb split_last]. rewrite Ep. cbn [p_res p_db p_evs is_nil].
+      destruct Hs as [H1 [H2 H3]].
+      rewrite phase_okb_of_spec.
+      * change (obs_of (set_held st1 0)) with (with_held (obs_of st1) 0).
+        rewrite dbobs_eqb_refl. cbn [andb].
+        change (with_held (obs_of st1) 0) with (obs_of (set_held st1 0)).
+        rewrite <- Hc'. change (cap st1) with (cap (set_held st1 0)). apply IH; assumption.
+      * exact H1.
+      * intro Hr. destruct (H2 Hr) as [? [? [? _]]]. auto.
+      * intro Hr. destruct (H3 Hr) as [? [-> ?]]. auto.
 Qed.
 
 Lemma model_passes_all : forall cp pre_cons pre_txs ops,
@@ -113,6 +175,15 @@ Fixpoint calls_of (ops : list op) (obs : list (list phase)) : list (call * phase
   | OCall c :: ops', [p] :: obs' => (c, p) :: calls_of ops' obs'
   | OConc a b :: ops', [pb; pa] :: obs' => (b, pb) :: (a, pa) :: calls_of ops' obs'
   | ORelease :: ops', _ :: obs' => calls_of ops' obs'
+  | OPark a bs :: ops', ps :: obs' =>
+      match split_last ps with
+      | Some (pre, lst) =>
+          match p_res lst with
+          | Some _ => combine bs pre ++ [(a, lst)]        (* rejected calls; the parked call *)
+          | None => match pre with [pa] => [(a, pa)] | _ => [] end   (* the call; the release *)
+          end
+      | None => []
+      end ++ calls_of ops' obs'
   | _, _ => []
   end.
 
